@@ -224,6 +224,8 @@ def run(prog: Program, chk: Check):
                 L.bad(fkey(f, call), where(f, call), f"{f.qual} rewrites {h.id}.num_data_bytes of a header it forwards")
                 return
             sites = cg.call_sites_of(f.key)
+            if not sites and prog.is_expanded_helper(f):
+                return  # a new helper whose calls were all expanded in place: judged inside its callers
             if not sites:
                 L.bad(fkey(f, call), where(f, call), f"no resolved caller of {f.qual}: pairing of header and payload cannot be established")
                 return
@@ -347,7 +349,7 @@ def run(prog: Program, chk: Check):
              "header-only frame declares 0 payload bytes", "Module.send_ack does not declare num_data_bytes = 0")
 
     # ---- C05-P a failed write never leaves the connection open -------------------------------------------------------
-    P = chk.rule("C05-P", "every exception handler around a send to a module removes that module (whatever the exception class)", 4,
+    P = chk.rule("C05-P", "every exception handler around a send to a module removes that module (whatever the exception class)", 3,
                  "sendall may have written part of a frame and the sequence counter is already incremented: keeping the connection open leaves a torn frame / a gap in its stream")
     from .c14 import conn_error_handlers
 
